@@ -238,3 +238,24 @@ def rand_nominal_dur(rng, with_exact=None):
         if rng.random() < 0.3:
             kw["seconds"] = rng.randint(-4000, 4000)
     return kw
+
+
+def twin_of(rng, mode, kw):
+    """another spelling (representation / offset) of the same instant as the
+    whole-second point described by kw; None when kw is not whole-second"""
+    if any(k.endswith("_decimal") for k in kw) or \
+            kw.get("hour_of_day") == 24 or "second_of_minute" not in kw:
+        return None
+    if "month_of_year" in kw:
+        rd = R.ymd_to_rd(mode, kw["year"], kw["month_of_year"],
+                         kw["day_of_month"])
+    elif "day_of_year" in kw:
+        rd = R.ord_to_rd(mode, kw["year"], kw["day_of_year"])
+    else:
+        rd = R.week_to_rd(mode, kw["year"], kw["week_of_year"],
+                          kw["day_of_week"])
+    sod = kw["hour_of_day"] * 3600 + kw["minute_of_hour"] * 60 + \
+        kw["second_of_minute"]
+    off = kw.get("time_zone_hour", 0) * 60 + kw.get("time_zone_minute", 0)
+    inst = rd * 86400 + sod - off * 60
+    return tp_from_instant(rng, mode, inst, allow_2400=False)
